@@ -51,6 +51,7 @@ func C14(p *load.Prog, r *report.Report) {
 		r.Undecided("C14.model", "layout", "", err.Error())
 		return
 	}
+	m.stateGuard(r, "C14", false, true)
 	k := absint.FieldSym(FN, "k")
 	canon := absint.CanonOf(FN, k)
 	entries, n, problems := bitsOf(p, m, k)
